@@ -225,7 +225,9 @@ def gen_fn(src, item, canary=False):
     for a, b in rewrites:
         out = out.replace(a, b)
     for a, b in re_rewrites:
-        out = re.sub(a, lambda m_: m_.expand(b) if '\\g<' in b else b, out, count=1, flags=re.S)
+        out, n_done = re.subn(a, lambda m_: m_.expand(b) if '\\g<' in b else b, out, count=1, flags=re.S)
+        if n_done != 1:
+            raise ExtractError("anchor lost: body rewrite /%s/ no longer matches after the contract text was inserted in fn %s" % (a[:60], item['name']))
     spec = ''.join(s['payload'] for s in subs.get('spec', []))
     text = hdr + '\n' + spec + '    {' + out + '}\n'
     info = {'fn': item['name'], 'source_sha256': sha256(f.header + '{' + body0 + '}'),
